@@ -791,13 +791,16 @@ class Element(object):
 
     def _set_parent(self, parent):
         old_parent = getattr(self, '_parent', None)
+        old_traversal_parent = getattr(self, '_traversal_parent', None)
         self._parent = parent
         if parent is not None:
             self.traversal_parent = None
             try:
                 self.parent.add(self)
             except Exception:
-                self._parent = old_parent  # refused: still a child of the previous parent
+                # refused: still a child (or a not yet attached traversal child) of the previous parent
+                self._parent = old_parent
+                self._traversal_parent = old_traversal_parent
                 raise
         if old_parent is not None and old_parent is not parent and \
                 any(c is self for c in old_parent.children.list):
